@@ -12,11 +12,11 @@ EXTENDS Naturals, Sequences, FiniteSets
 
 \* issuer, validity, number of role extensions, role, names the certificate is valid for
 CertInfo(c) ==
-  CASE c = "server"              -> [issuer |-> "ca1", valid |-> "ok", roles |-> 0, role |-> "", names |-> {"test.com"}]
+  CASE c = "server"              -> [issuer |-> "ca1", valid |-> "ok", roles |-> 0, role |-> "", names |-> {"test.com", "127.0.0.1"}]
     [] c = "server_othername"    -> [issuer |-> "ca1", valid |-> "ok", roles |-> 0, role |-> "", names |-> {"other.example"}]
-    [] c = "server_ca2"          -> [issuer |-> "ca2", valid |-> "ok", roles |-> 0, role |-> "", names |-> {"test.com"}]
-    [] c = "server_expired"      -> [issuer |-> "ca1", valid |-> "expired", roles |-> 0, role |-> "", names |-> {"test.com"}]
-    [] c = "server_notyet"       -> [issuer |-> "ca1", valid |-> "notyet", roles |-> 0, role |-> "", names |-> {"test.com"}]
+    [] c = "server_ca2"          -> [issuer |-> "ca2", valid |-> "ok", roles |-> 0, role |-> "", names |-> {"test.com", "127.0.0.1"}]
+    [] c = "server_expired"      -> [issuer |-> "ca1", valid |-> "expired", roles |-> 0, role |-> "", names |-> {"test.com", "127.0.0.1"}]
+    [] c = "server_notyet"       -> [issuer |-> "ca1", valid |-> "notyet", roles |-> 0, role |-> "", names |-> {"test.com", "127.0.0.1"}]
     [] c = "client_operator"     -> [issuer |-> "ca1", valid |-> "ok", roles |-> 1, role |-> "operator", names |-> {}]
     [] c = "client_viewer"       -> [issuer |-> "ca1", valid |-> "ok", roles |-> 1, role |-> "viewer", names |-> {}]
     [] c = "client_norole"       -> [issuer |-> "ca1", valid |-> "ok", roles |-> 0, role |-> "", names |-> {}]
